@@ -4,6 +4,7 @@ import (
 	"encoding/json"
 	"math/rand"
 	"os"
+	"strings"
 
 	"github.com/Vedant9500/WTF/internal/database"
 )
@@ -62,6 +63,13 @@ func c02Run(c *c02Case, cmds []database.Command, dir string, shipped *database.D
 	for i := 0; i < 3; i++ {
 		c.Runs = append(c.Runs, projectResults(b, b.SearchUniversal(q, o)))
 	}
+	// the answer must not depend on what the database was asked before: other queries in between, then the same again
+	for _, other := range []string{"disk usage", fromInts(c.Query) + " files", "compress archive"} {
+		oo := o
+		oo.UseNLP = true
+		a.SearchUniversal(other, oo)
+	}
+	c.Runs = append(c.Runs, projectResults(a, a.SearchUniversal(q, o)))
 	nsugg := 5
 	reps := 4
 	if c.Kind == "sugg" { // tied suggestion words: which of them survives a small maximum must be fixed too
@@ -114,6 +122,26 @@ func runC02(seed int64, n int, replay string, e *emitter) {
 			loadShipped()
 			c.Query = ints(shippedQueries[(i/10)%len(shippedQueries)])
 			c.Opts = eOpts{Limit: []int{5, 10, 3}[r.Intn(3)], NLP: r.Intn(2) == 0, Fuzzy: true, Threshold: -30}
+		case i%50 == 13:
+			// a database big enough for any size-triggered strategy (batching, parallel scoring), with groups of exact
+			// ties spread over its whole length
+			c.Kind = "big"
+			base := []database.Command{eGenCommand(r), eGenCommand(r), eGenCommand(r)}
+			for j := 0; j < 1300; j++ {
+				d := cloneCmd(base[j%3])
+				if j%3 != 0 || j%9 == 0 {
+					d.Command = base[j%3].Command + strings.Repeat(" -", 1+j%5)
+				} else {
+					d = eGenCommand(r)
+				}
+				cmds = append(cmds, d)
+			}
+			ws := strings.Fields(base[1].Description + " " + base[2].Description)
+			if len(ws) > 4 {
+				ws = ws[:4]
+			}
+			c.Query = ints(strings.Join(ws, " "))
+			c.Opts = eOpts{Limit: 1 + r.Intn(7), NLP: true, AllPlatforms: true}
 		case i%7 == 4:
 			// words of equal length that match a typo equally well (one inner letter varies)
 			c.Kind = "sugg"
